@@ -225,6 +225,10 @@ class RuleTable:
                 if fr.qual == "builtins.sorted":
                     return None
                 return sub_
+        if isinstance(it, ast.Call) and isinstance(it.func, ast.Attribute) and it.func.attr == "split" and not it.keywords and len(it.args) <= 1 and isinstance(it.func.value, ast.Constant) and isinstance(it.func.value.value, str) and all(isinstance(a, ast.Constant) and isinstance(a.value, str) for a in it.args):
+            # "a b c".split(): a table of names written as one string
+            parts = it.func.value.value.split(*[a.value for a in it.args])
+            return [ast.copy_location(ast.Constant(value=p_), it) for p_ in parts] if len(parts) <= 256 else None
         if isinstance(it, ast.Call) and isinstance(it.func, ast.Attribute) and it.func.attr in ("items", "keys", "values") and not it.args and not it.keywords:
             d = it.func.value
             dm = m
@@ -232,6 +236,22 @@ class RuleTable:
                 r = self.repo.resolve_expr(m, d)
                 if r is not None and r.kind == "repo" and r.okind == "assign":
                     d, dm = r.node, r.mod
+            if isinstance(d, ast.DictComp) and len(d.generators) == 1 and not d.generators[0].ifs and dm is m:
+                # {key(x): value(x) for x in <literal>}: the display with one entry per element
+                g_ = d.generators[0]
+                src_ = self._literal_elts(dm, g_.iter, env)
+                if src_ is not None and len(src_) <= 64 and not any(isinstance(e_, _Foreign) for e_ in src_):
+                    ks, vs = [], []
+                    okc = True
+                    for e_ in src_:
+                        env2 = dict(env)
+                        if not _bind_loop_target(g_.target, e_, env2):
+                            okc = False
+                            break
+                        ks.append(subst(d.key, env2))
+                        vs.append(subst(d.value, env2))
+                    if okc:
+                        d = ast.Dict(keys=ks, values=vs)
             if isinstance(d, ast.Dict) and all(k is not None for k in d.keys):
                 if it.func.attr == "items":
                     out = [ast.Tuple(elts=[k, v], ctx=ast.Load()) for k, v in zip(d.keys, d.values)]
@@ -301,6 +321,24 @@ class RuleTable:
     # ---- one call at module top level
     def _call(self, m, c, env):
         f = c.func
+        if any(k.arg is None for k in c.keywords):
+            # f(.., **options) with options bound to a dict display with constant keys: the keywords themselves
+            kws, okk = [], True
+            for k in c.keywords:
+                if k.arg is not None:
+                    kws.append(k)
+                    continue
+                dv = subst(k.value, env)
+                if isinstance(dv, ast.Dict) and all(isinstance(kk, ast.Constant) and isinstance(kk.value, str) for kk in dv.keys):
+                    kws.extend(ast.keyword(arg=kk.value, value=vv) for kk, vv in zip(dv.keys, dv.values))
+                else:
+                    okk = False
+            if okk:
+                c2 = ast.Call(func=c.func, args=list(c.args), keywords=kws)
+                ast.copy_location(c2, c)
+                ast.fix_missing_locations(c2)
+                c2._parent = getattr(c, "_parent", None)
+                return self._call(m, c2, env)
         if isinstance(f, ast.Name) and f.id not in env:
             # NAME = functools.partial(F, a, .., k=v) bound once at module level: NAME(x, ..) is F(a, .., x, .., k=v)
             bl = m.top.get(f.id)
@@ -374,7 +412,7 @@ class RuleTable:
                             cargs.append(x)
                     else:
                         cargs.append(x)
-                if a.vararg or a.kwarg or a.kwonlyargs or len(cargs) > len(params) or any(isinstance(x, ast.Starred) for x in cargs):
+                if a.vararg or a.kwonlyargs or len(cargs) > len(params) or any(isinstance(x, ast.Starred) for x in cargs):
                     self.undecided.append((m, c, f"registration helper {fref.qual} called with an unsupported signature"))
                     return
                 env2 = {}
@@ -382,12 +420,19 @@ class RuleTable:
                 for p_, x in zip(params, cargs):
                     v = subst(x, env)
                     env2[p_] = v if (fref.mod is m or isinstance(v, _Foreign)) else _Foreign(m, v)
+                extra_k, extra_v = [], []
                 for k in c.keywords:
                     if k.arg in params:
                         v = subst(k.value, env)
                         env2[k.arg] = v if (fref.mod is m or isinstance(v, _Foreign)) else _Foreign(m, v)
+                    elif k.arg is not None and a.kwarg is not None and fref.mod is m:
+                        extra_k.append(ast.Constant(value=k.arg))
+                        extra_v.append(subst(k.value, env))
                     else:
                         ok = False
+                if a.kwarg is not None:
+                    # **options of the helper: the keywords it was called with, as a dict display
+                    env2[a.kwarg.arg] = ast.Dict(keys=extra_k, values=extra_v)
                 defaults = dict(zip(params[len(params) - len(a.defaults):], a.defaults))
                 for p_ in params:
                     if p_ not in env2:
@@ -423,6 +468,12 @@ class RuleTable:
             return None
         if isinstance(v, (ast.Tuple, ast.List)):
             return None if any(isinstance(e, ast.Starred) for e in v.elts) else list(v.elts)
+        if isinstance(v, (ast.Name, ast.Attribute)):
+            # *RULES with RULES = (maker0, maker1) bound once at module level
+            r = self.repo.resolve_expr(m, v)
+            if r is not None and r.kind == "repo" and r.okind == "assign" and r.mod is m and isinstance(r.node, (ast.Tuple, ast.List)) and not any(isinstance(e, ast.Starred) for e in r.node.elts):
+                return list(r.node.elts)
+            return None
         if isinstance(v, ast.Call) and not any(isinstance(a, ast.Starred) for a in v.args):
             # *factory(...): a module-level function every return of which is a tuple display of the same length n
             # contributes factory(...)[0] .. factory(...)[n-1]
@@ -522,6 +573,11 @@ class RuleTable:
         for i, mk in enumerate(makers):
             an = argnums[i] if i < len(argnums) else ("dropped", i)
             mk = subst(mk, env)
+            if isinstance(mk, (ast.Name, ast.Attribute)):
+                # SAME = "same" / NO_RULE = None bound once at module level
+                rk = self.repo.resolve_expr(m, mk)
+                if rk is not None and rk.kind == "repo" and rk.okind == "assign" and isinstance(rk.node, ast.Constant):
+                    mk = rk.node
             if isinstance(mk, ast.Constant) and mk.value is None:
                 spec = "none"
             elif isinstance(mk, ast.Constant) and mk.value == "same":
